@@ -252,7 +252,7 @@ def main(prop=PROP, explain=False):
         run(chk, 7, 20000, explain)
     else:
         run(chk, 5, 2500, explain)
-        if chk.broken() and not chk.spec_failures:
+        if (chk.broken() or chk.anchor_changed) and not chk.spec_failures:
             # escalate the search for a failing input before giving up
             chk.notes.append("escalated to thorough budget after a broken proof/correspondence")
             run(chk, 6, 10000, explain)
